@@ -15,6 +15,11 @@ struct CRing {
 static CRing C;
 static std::unique_ptr<igris::ring<char>> XC;
 static std::unique_ptr<igris::ring<int>> XI;
+// an element type whose constructors can fail (kind "xt"): a write whose element construction throws must leave the ring as it was
+static bool g_throw = false;
+struct TE { unsigned char v; TE() : v(0) {} TE(int x) : v((unsigned char)x) { if (g_throw) throw 1; } TE(const TE &o) : v(o.v) { if (g_throw) throw 1; }
+    TE &operator=(const TE &o) { v = o.v; return *this; } operator unsigned char() const { return v; } };
+static std::unique_ptr<igris::ring<TE>> XT;
 static std::string kind;
 
 template <class R> static void obs_x(Ev &e, R &x) {
@@ -26,7 +31,7 @@ static void obs(Ev &e) {
         e.i("avail", ring_avail(&C.r)).i("room", ring_room(&C.r)).i("empty", ring_empty(&C.r)).i("full", ring_full(&C.r))
          .i("head", C.r.head).i("tail", C.r.tail).i("size", C.r.size)
          .bytes("gl", C.blk, G).bytes("gr", C.blk + G + C.size, G).bytes("mem", C.blk + G, C.size);
-    } else if (kind == "xc") obs_x(e, *XC); else obs_x(e, *XI);
+    } else if (kind == "xc") obs_x(e, *XC); else if (kind == "xt") obs_x(e, *XT); else obs_x(e, *XI);
 }
 
 template <class R, class T> static void xop(R &x, const std::vector<std::string> &t) {
@@ -52,6 +57,10 @@ template <class R, class T> static void xop(R &x, const std::vector<std::string>
                 char *dst = (char *)malloc(k + 1); size_t ret = x.read(dst, (size_t)kk);
                 Ev e("Read"); e.i("k", kk > 2147483647ul ? 2147483647l : (long)kk).str("ks", t[1].c_str()).i("kb", k).i("bulk", 1).i("ret", (long)ret).bytes("data", dst, ret > (size_t)k ? k : ret); obs(e); e.end(); free(dst); }
         } else { fprintf(stderr, "bulk read/write needs ring<char>\n"); exit(3); } }
+    else if (op == "PutcFail") {     // push / emplace of an element whose construction throws
+        int threw = 0; long b = num(t[1]);
+        if constexpr (std::is_same<T, TE>::value) { if (x.room() > 0) { TE tmp((int)b); g_throw = true; try { if (b % 2) x.push(tmp); else x.emplace((int)b); } catch (int) { threw = 1; } g_throw = false; } else threw = 1; }
+        Ev e("PutcFail"); e.i("b", b).i("threw", threw); obs(e); e.end(); }
     else if (op == "Clean") { x.reset(); Ev e("Clean"); obs(e); e.end(); }
     else if (op == "ClearPop") { x.clear(); Ev e("ClearPop"); obs(e); e.end(); }
     else if (op == "Last") { Ev e("Last"); e.i("ret", (unsigned char)x.last()); obs(e); e.end(); }
@@ -97,9 +106,9 @@ int main(int argc, char **argv) {
     return run(argc, argv, [&](const std::vector<std::string> &t) {
         if (t[0] == "R") {
             kind = t[1]; unsigned s = num(t[2]);
-            if (kind == "c") C.reset(s); else if (kind == "xc") XC.reset(new igris::ring<char>(s - 1)); else XI.reset(new igris::ring<int>(s - 1));
+            if (kind == "c") C.reset(s); else if (kind == "xc") XC.reset(new igris::ring<char>(s - 1)); else if (kind == "xt") XT.reset(new igris::ring<TE>(s - 1)); else XI.reset(new igris::ring<int>(s - 1));
             Ev e("Reset"); e.str("kind", kind.c_str()).i("req", (long)s); obs(e); e.end(); return;
         }
-        if (kind == "c") cop(t); else if (kind == "xc") xop<igris::ring<char>, char>(*XC, t); else xop<igris::ring<int>, int>(*XI, t);
+        if (kind == "c") cop(t); else if (kind == "xc") xop<igris::ring<char>, char>(*XC, t); else if (kind == "xt") xop<igris::ring<TE>, TE>(*XT, t); else xop<igris::ring<int>, int>(*XI, t);
     });
 }
